@@ -362,6 +362,8 @@ def run(q, T, B=None):
         return _run(q, T, B)
     except RefError as e:
         return ('err', e.cls, e.prefix, [])
+    except Exception as e:  # noqa -- Python-level failure outside per-record evaluation (unorderable sort / group keys)
+        return ('raw', type(e).__name__)
 
 
 def _run(q, T, B):
